@@ -307,6 +307,25 @@ struct Runner {
 
 	//--------------------------------------------------------------------------
 
+#if VH_SERIAL
+	// save `src`, load the image into `dst`, save `dst` again (must give the same image)
+	void saveLoadPair(int src, int dst) {
+		Out& o = out();
+		o << "op " << src << " save\n";
+		const std::string bits = saveBits(src);
+		o << "ret " << bits << "\n" << "end\n";
+		snap(src);
+		o << "op " << dst << " load " << bits << "\n";
+		loadBits(dst, bits);
+		o << "end\n";
+		snap(dst);
+		o << "op " << dst << " save\n";
+		const std::string again = saveBits(dst);
+		o << "ret " << again << "\n" << "end\n";
+		snap(dst);
+	}
+#endif
+
 	void scenario(uint64_t seed, int index, int opCount) {
 		Script& s = script();
 		s.prng = Prng{seed * 1000003ull + static_cast<uint64_t>(index)};
@@ -357,6 +376,14 @@ struct Runner {
 			const unsigned r = s.prng.below(100);
 #if VH_MANUAL
 			if (!m.isActive()) {
+#if VH_SERIAL
+				// an instance that is not activated can still be saved (empty image) and loaded into
+				if (s.prng.chance(45)) {
+					const bool asSource = s.prng.chance(40);
+					saveLoadPair(asSource ? k : 1 - k, asSource ? 1 - k : k);
+					continue;
+				}
+#endif
 				o << "op " << k << " enter\n";
 				s.firstActivation = true;
 				enterCall(k); m.enter();
@@ -364,7 +391,7 @@ struct Runner {
 				o << "end\n"; snap(k);
 				continue;
 			}
-			if (r == 99) {
+			if (r >= 97) {
 				o << "op " << k << " exit\n";
 				enterCall(k); m.exit();
 				o << "end\n"; snap(k);
@@ -451,28 +478,7 @@ struct Runner {
 			}
 #if VH_SERIAL
 			else if (r < 95) {
-				const int src = k, dst = 1 - k;
-#if VH_MANUAL
-				const bool okDst = true;
-#else
-				const bool okDst = true;
-#endif
-				(void) okDst;
-				o << "op " << src << " save\n";
-				const std::string bits = saveBits(src);
-				o << "ret " << bits << "\n" << "end\n";
-				snap(src);
-				o << "op " << dst << " load " << bits << "\n";
-				loadBits(dst, bits);
-				o << "end\n";
-				snap(dst);
-				// saving the loaded instance again must give the same image
-				if (active(inst(dst))) {
-					o << "op " << dst << " save\n";
-					const std::string again = saveBits(dst);
-					o << "ret " << again << "\n" << "end\n";
-					snap(dst);
-				}
+				saveLoadPair(k, 1 - k);
 				continue;
 			}
 #endif
